@@ -1,6 +1,7 @@
 #!/usr/bin/env python3
 """Prints the markdown tables of section 12 of DESIGN.md from mutants/results.json and seeded/*/meta.json."""
 import json, os
+def esc(x): return x.replace('|', '\\|')
 r = json.load(open('/verif/mutants/results.json'))
 print("| change (my catalogue, `tools/mutants.py`) | repository suite | checks run | verdict | first signature |")
 print("|---|---|---|---|---|")
@@ -15,7 +16,7 @@ for k in sorted(r):
     missed = [p for p, x in det.items() if x['exit'] != 1]
     if missed and any(x['exit'] == 1 for x in det.values()): verdict += ' (not by ' + ', '.join(missed) + ')'
     sig = next((x['signatures'][0] for x in det.values() if x.get('signatures')), '')
-    print(f"| `{k}` {('- ' + v['note']) if v.get('note') else ''} | {suite} | {checks} | {verdict} | `{sig[:90]}` |")
+    XX
 print()
 print("| seeded change (sub-agent, `seeded/<id>/`) | what it needs to manifest | detected by | first signature |")
 print("|---|---|---|---|")
@@ -24,4 +25,4 @@ for i in sorted(os.listdir('/verif/seeded')):
     det = m.get('detection', {})
     by = ', '.join(f"{p} ({x['tier']})" for p, x in det.items() if x['exit'] == 1) or 'NOT DETECTED'
     sig = next((x['signatures'][0] for x in det.values() if x.get('signatures')), '')
-    print(f"| {i}: {m.get('summary','')[:160]} | {m.get('needs_to_manifest','')[:140]} | {by} | `{sig[:80]}` |")
+    print(f"| {i}: {m.get('summary','')[:160]} | {m.get('needs_to_manifest','')[:140]} | {by} | `{esc(sig[:80])}` |")
